@@ -89,6 +89,15 @@ func (p *Program) GenFunc(key string, opts GenOpts) *Unit {
 		u.Err = fmt.Errorf("function %s has no body", key)
 		return u
 	}
+	if fc := p.cs.Funcs[key]; fc != nil && !opts.LockOnly {
+		if _, ok := fc.Opts["structural"]; ok {
+			// a unit decided on the shape of the code alone (no symbolic execution): `norecover`
+			u.VC = p.genStructural(fn, key, fc)
+			u.ReachCond = "true"
+			u.Props = fc.Props
+			return u
+		}
+	}
 	var pre map[string]string
 	var usedPkgs map[string]bool
 	for pass := 1; pass <= 2; pass++ {
@@ -493,4 +502,48 @@ func (fr *Frame) ghostAssign(st *State, env *Env, gu *GhostUpd) (err error) {
 		return fmt.Errorf("%s is not a ghost global", x.Name)
 	}
 	return fmt.Errorf("unsupported ghost target")
+}
+
+// genStructural: `structural` units. Clause `norecover`: neither the function nor any of its closures calls recover(): a
+// failure raised below it (a short read) propagates to the caller instead of being swallowed, so the function cannot return an
+// object built from bytes that were not present (property C04). One obligation per recover() call found (goal false, with the
+// call's position); one trivially true obligation when there is none, so that the unit is never empty.
+func (p *Program) genStructural(fn *ssa.Function, key string, fc *FuncContract) *VC {
+	vc := NewVC(p, ModeInt, key)
+	vc.unitPkg = pkgOfKey(key)
+	if _, ok := fc.Opts["norecover"]; ok {
+		found := 0
+		var visit func(f *ssa.Function)
+		visit = func(f *ssa.Function) {
+			for _, b := range f.Blocks {
+				for _, ins := range b.Instrs {
+					var cc *ssa.CallCommon
+					switch x := ins.(type) {
+					case *ssa.Call:
+						cc = &x.Call
+					case *ssa.Defer:
+						cc = &x.Call
+					case *ssa.Go:
+						cc = &x.Call
+					}
+					if cc == nil {
+						continue
+					}
+					if bi, ok := cc.Value.(*ssa.Builtin); ok && bi.Name() == "recover" {
+						found++
+						vc.oblige("recover", key, "no-recover", "true", "false", p.sprog.Fset.Position(ins.Pos()),
+							"recover() in a decoder swallows the failure of a short read: the function could return an object built from bytes that were not present")
+					}
+				}
+			}
+			for _, af := range f.AnonFuncs {
+				visit(af)
+			}
+		}
+		visit(fn)
+		if found == 0 {
+			vc.oblige("recover", key, "no-recover", "true", "true", p.sprog.Fset.Position(fn.Pos()), "the function and its closures do not call recover()")
+		}
+	}
+	return vc
 }
